@@ -30,14 +30,14 @@ PROPS = {
    'must_reach': ['switch_in_free_mt', 'switch_in_tf_collect', 'free_mt_cas_retry', 'tf_collect_cas_retry', 'delayed_freeing_observed', 'spurious_cas_injected'],
  },
  'C08': {
-   'families': [('c08_drain', 5, ALL), ('c08_prodcons', 2, ALL)],
+   'families': [('c08_drain', 5, ALL), ('c08_prodcons', 2, ALL), ('c09_exit', 1, ALL), ('c09_adopt_race', 1, ALL)],
    'runs': {'quick': 1500, 'thorough': 100000},
    'rule': 'non-trivial = the owner ran _mi_heap_delayed_free_partial / _mi_page_thread_free_collect while a remote was preempted inside its free (context switch inside the delayed-free functions); distinct = distinct (API hash, hot-switch signature)',
    'nontrivial': lambda r: sw(r, 'switch_in_free_mt', 'switch_in_tf_collect', 'switch_in_delayed_partial') > 0,
    'must_reach': ['switch_in_free_mt', 'switch_in_delayed_partial', 'delayed_freeing_observed'],
  },
  'C09': {
-   'families': [('c09_exit', 5, ALL), ('c09_adopt_race', 3, ALL), ('c09_collect_race', 2, ALL), ('c09_userheap_adopter', 2, ALL), ('c12_bigarena', 0.3, ALLU)],
+   'families': [('c09_exit', 5, ALL), ('c09_adopt_race', 3, ALL), ('c09_collect_race', 2, ALL), ('c09_oslist', 2, ALL), ('c09_userheap_adopter', 2, ALL), ('c12_bigarena', 0.3, ALLU)],
    'runs': {'quick': 1500, 'thorough': 100000},
    'rule': 'non-trivial = at least one segment was abandoned and one reclaimed in the run; distinct = distinct (API hash, hot-switch signature)',
    'nontrivial': lambda r: sw(r, 'segment_abandoned') > 0 and sw(r, 'segment_reclaimed') > 0,
